@@ -290,6 +290,19 @@ def cred_tables():
                  "nice_component_restart (component, agent); agent_signal_component_state_change (agent, stream->id, component->id, NICE_COMPONENT_STATE_GATHERING);"]:
         if need not in st:
             return None, "agent/stream.c no longer contains the modelled statement `%s`" % need
+    mv = re.search(r"static bool conncheck_stun_validater \(.*?\n\}", open(os.path.join(vlib.REPO, "agent/conncheck.c")).read(), re.S)
+    if not mv:
+        return None, "conncheck_stun_validater not found in agent/conncheck.c"
+    vb = re.sub(r"\s+", " ", re.sub(r"/\*.*?\*/", " ", mv.group(0), flags=re.S))
+    for need in ["if (cand->username) ufrag = cand->username; else ufrag = data->stream->local_ufrag; ufrag_len = ufrag? strlen (ufrag) : 0;",
+                 "if (ufrag_len > 0 && username_len >= ufrag_len && memcmp (username, ufrag, ufrag_len) == 0) {",
+                 "if (cand->password) pass = cand->password; else if (data->stream && data->stream->local_password[0]) pass = data->stream->local_password;",
+                 "if (pass) { *password = (uint8_t *) pass; *password_len = strlen (pass);",
+                 "} return FALSE; }"]:
+        if need not in vb:
+            return None, "conncheck_stun_validater (agent/conncheck.c) no longer contains the modelled statement `%s`" % need
+    if vb.count("return TRUE;") != 1:
+        return None, "conncheck_stun_validater (agent/conncheck.c) has another accepting path than the modelled one"
     text = "(* GENERATED from random/random.c, agent/stream.h (shape of agent/stream.c checked) by lib/tabgen.py - do not edit *)\nFrom Coq Require Import ZArith List.\nImport ListNotations.\nLocal Open Scope Z_scope.\n"
     text += "Definition ice_chars : list Z := [%s].\n" % "; ".join(str(ord(c)) for c in chars)
     text += "Definition DEF_UFRAG_LEN : nat := %s.\nDefinition DEF_PWD_LEN : nat := %s.\n" % (mu.group(1), mp.group(1))
@@ -300,7 +313,6 @@ def cred_tables():
 def select_shape():
     """shape check for coq/Agent/SelectModel.v: conn_check_update_selected_pair replaces the selected pair only by a strictly higher
     priority; nice_component_restart resets that priority to 0."""
-    cc = re.sub(r"\s+", " ", re.sub(r"/\*.*?\*/", " ", open(os.path.join(vlib.REPO, "agent/conncheck.c")).read(), flags=re.S))
     cp = re.sub(r"\s+", " ", re.sub(r"/\*.*?\*/", " ", open(os.path.join(vlib.REPO, "agent/component.c")).read(), flags=re.S))
     m = re.search(r"void conn_check_update_selected_pair \(NiceAgent \*agent, NiceComponent \*component, CandidateCheckPair \*pair\) \{(.*?)\} /\*|void conn_check_update_selected_pair \(NiceAgent \*agent, NiceComponent \*component, CandidateCheckPair \*pair\) \{(.*?)\n", cc)
     need_cc = ["g_assert (pair->nominated); if (pair->priority > component->selected_pair.priority) {", "cpair.priority = pair->priority;",
